@@ -15,6 +15,8 @@ from props import api_common
 THEOREMS = ["C11_invariant", "C11_start", "C11_builder_build", "C11_std_bundle", "C11_step", "C11_inv_reading",
             "C11_roundtrip_unknown_crc", "C11_wf_conservative", "C11_bundle_builder", "C11_from_builder", "C11_builder_payload_last",
             "C11_constructors_admissible", "C11_constructors_valid", "C11_primary_builder", "C11_std_bundle_api", "C11_block_ops", "C11_tie_crc_code"]
+REPEAT = 2            # case lines repeated 66 000 times on one thread (state that builds up over many calls)
+REPEAT_CMDS = ('OPS',)
 RELEASE = True
 OFFSET = 946684800000
 RULE = ("OPS <clock> <builder bundle> ; [SORT ;] op ...: start bundles = payload-only, new_std_payload_bundle shape (hop count 2 + payload 1) and "
